@@ -72,7 +72,20 @@ func conflictSet(i int64, seed int64) []file {
 	r := prng.For(seed, "C05", "conflict", i)
 	pick := func(xs ...string) string { return xs[r.Intn(len(xs))] }
 	var fs []file
-	switch i % 23 {
+	switch i % 24 {
+	case 23: // a submodule whose import is nowhere to be found, a second submodule that includes it and uses one of its typedefs, and the module that includes both: where linking stops at the missing import, what the last run reports must not depend on what earlier runs, over the files loaded then, had linked (the repetitions with a run after every load see to that)
+		miss := pick("zzgone", "zznone")
+		fs = append(fs, file{"sa.yang", "submodule sa { belongs-to mm { prefix mm; } import " + miss + " { prefix g; }\n  typedef ta { type " + pick("int8", "string") + "; }\n  leaf la { type string; }\n}\n"})
+		fs = append(fs, file{"sb.yang", "submodule sb { belongs-to mm { prefix mm; } include sa;\n  grouping gb { typedef tb { type ta; } leaf lb { type tb; } }\n  typedef tc { type union { type int8; type nosuch; } }\n}\n"})
+		if r.Intn(3) > 0 {
+			// (the module lists only the one submodule: the other one is reached through it alone)
+			fs = append(fs, file{"mm.yang", "module mm { namespace \"urn:mm\"; prefix mm; include sb;\n  uses gb;\n}\n"})
+		} else {
+			fs = append(fs, file{"mm.yang", "module mm { namespace \"urn:mm\"; prefix mm; include sb; include sa;\n  leaf top { type ta; }\n  uses gb;\n}\n"})
+		}
+		if r.Intn(2) == 0 {
+			fs = append(fs, file{"user.yang", "module user { namespace \"urn:user\"; prefix u; import mm { prefix mm; }\n  leaf ul { type string; }\n  uses mm:gb;\n}\n"})
+		}
 	case 22: // deviations of several modules whose targets are missing and whose paths differ only in how a number is written ("/t:1", "/t:01"): the errors have no position, their texts are equal as numbers field by field; equal errors must still be dropped and the rest must have one order
 		p := []string{"/t:1", "/t:01", "/t:1", "/t:001", "/t:01"}
 		r.Shuffle(len(p), func(a, b int) { p[a], p[b] = p[b], p[a] })
